@@ -30,6 +30,18 @@ CHECKS = {
         "closed-form p, p', p'' of the analytic EOS; traced potentials are observed only "
         "passively in the manager workloads",
         "DESIGN.md §4 C02, §5 F6"),
+    "C03": (
+        "reference-model monitor: every deflagration/hybrid matching returned by the real "
+        "findMatching is re-integrated by an independent similarity-variable fluid "
+        "integrator (DOP853, own equations) and crossed at the front; direct comparison of "
+        "solveHydroShock and efficiencyFactor with the same reference",
+        "Runtime monitoring of ~700 (quick) / ~20000 (thorough) matchings plus as many direct "
+        "shock integrations and ~150/3000 efficiency factors, tolerance propagated from the "
+        "object's (rtol, atol) through dT_n'/dv+. Held on the executions observed except for "
+        "the listed known finding.",
+        "front located at mu*xi = cs^2(T) and crossed with energy-flux continuity as the "
+        "property states; weak shocks use the ln v form of the same reference equations",
+        "DESIGN.md §4 C03"),
 }
 
 ALL = [f"C{i:02d}" for i in range(1, 21)]
